@@ -1,3 +1,4 @@
+import Firebolt.TransExpected
 import Firebolt.Properties.TransBase
 import Firebolt.Model.EsSink
 import Firebolt.Generated.Skeleton
@@ -501,11 +502,8 @@ theorem translated_esItems_loop (retry max : Nat) (l : List (Doc × Outcome)) : 
 /-- after the walk: at the last allowed attempt ErrMaxRetries is returned and the retry slice is dropped (nothing is sent
 again); otherwise the slice goes to `retryBulkIndex` with the retry count increased by one, on another goroutine -/
 theorem translated_esTail (σ : Env) :
-    obs Trans.esTail σ =
-      if σ "retryCount" = σ "c.maxRetries" then
-        ⟨[("c.metrics.BulkMaxRetriesReached.Add", [σ "float64(len(res.Failed()))"])], some [σ "ErrMaxRetries"], false⟩
-      else ⟨[("go c.retryBulkIndex", [σ "retryRequests", wrap64 (σ "retryCount" + 1)])], some [0], false⟩ := by
-  by_cases h : σ "retryCount" = σ "c.maxRetries" <;> minigo_simp [Trans.esTail, h]
+    obs Trans.esTail σ = TransExpected.esTail σ := by
+  by_cases h : σ "retryCount" = σ "c.maxRetries" <;> minigo_simp [TransExpected.esTail, Trans.esTail, h]
 
 end Translated
 
